@@ -32,11 +32,19 @@ def main(argv):
         return mod.replay(R, body)
     try:
         mod.run(R)
-    except Exception as e:  # a crash of the machinery is a broken check, reported as such
+    except Exception as e:
+        # the correspondence machinery could not be run to the end against this tree (an evaluation of the regenerated model or a
+        # driver of the implementation raised): the tie is broken, which is reported like any other broken correspondence -- with
+        # whatever failing input was found before the exception, else as no-failing-input-found naming the exception
         import traceback
         traceback.print_exc()
         print('CHECK-ERROR property=%s %s: %s' % (cid, type(e).__name__, e))
-        return 3
+        try:
+            R.signal('correspondence-machinery-exception', {'exception': '%s: %s' % (type(e).__name__, e), 'traceback': traceback.format_exc()[-3000:]})
+            return R.finish()
+        except Exception:
+            traceback.print_exc()
+            return 3
     return R.finish()
 
 
